@@ -1,6 +1,7 @@
 import AmcVerif.Lemmas.VecOpSpecs
 import AmcVerif.Lemmas.VecOpsC
 import AmcVerif.Lemmas.HelperPosts
+import AmcVerif.Lemmas.VecLifecycle
 /-! C02 (container level) — elements are destroyed exactly once and relocated only as their type allows.
 
 In the slot model a buffer slot is `raw` (no object), `live v` or `hollow` (alive, moved-from), and every element primitive checks
@@ -18,7 +19,7 @@ variable {α : Type} {cfg : Cfg} {Ok : VB → Prop}
 theorem C02_history_no_fault (L : VecLaws α cfg Ok) (c : Nat) (ops : List (OpSpec α)) (hops : ∀ o ∈ ops, IsVecOp cfg o) (m : Mem α)
     (xs : List α) (hv : VRep cfg Ok c m xs) (hi : HInv m) (hs : Safe cfg ops xs) (hcat : ∀ o ∈ ops, o.nonTC = true → m.cat ≠ .tc) :
     Post (runHist cfg c ops) m (fun res m' => res = .ok () ∧ ∃ ys, VRep cfg Ok c m' ys) := by
-  refine Post.mono (vector_history L c ops hops m xs hv hi hs hcat) ?_
+  refine Post.mono (vector_history L c ops hops m xs hv hi hs hcat _ (Owned.start cfg c hi.fresh)) ?_
   rintro res m' ⟨hr, ys, _, hv', _⟩
   exact ⟨hr, ys, hv'⟩
 
@@ -62,7 +63,8 @@ theorem C02_destruct (m : Mem α) (c : Nat) (xs : List α) (w : VB) (h : VRepW c
       ∧ (∀ id, regionOf cfg c w = .blk id → 0 < cfg.ops.capacity w → m'.buf (.blk id) = none ∧ m'.cnt id = none)
       ∧ (regionOf cfg c w = .inl c → 0 < cfg.ops.capacity w → m'.buf (.inl c) = some (raws (cfg.ops.capacity w)))
       ∧ (∀ r', r' ≠ regionOf cfg c w → m'.buf r' = m.buf r')
-      ∧ m'.ws = m.ws.set c (cfg.ops.dtor w).1 ∧ m'.cat = m.cat ∧ m'.hasRealloc = m.hasRealloc ∧ m'.nextId = m.nextId) :=
+      ∧ m'.ws = m.ws.set c (cfg.ops.dtor w).1 ∧ m'.cat = m.cat ∧ m'.hasRealloc = m.hasRealloc ∧ m'.nextId = m.nextId
+      ∧ (∀ id, (m'.buf (.blk id)).isSome → (m.buf (.blk id)).isSome)) :=
   destruct_post m c xs w h hd
 
 /-- a SmallVector that is destroyed leaves its inline storage empty in both states (inline or heap) -/
@@ -72,7 +74,51 @@ theorem C02_destruct_small {P : Nat → Prop} (hfl : cfg.flavour = .small) (L : 
       ∧ (∀ id, regionOf cfg c w = .blk id → 0 < cfg.ops.capacity w → m'.buf (.blk id) = none ∧ m'.cnt id = none)
       ∧ m'.buf (.inl c) = some (raws cfg.n)
       ∧ (∀ r', r' ≠ regionOf cfg c w → m'.buf r' = m.buf r')
-      ∧ m'.ws = m.ws.set c (cfg.ops.dtor w).1 ∧ m'.cat = m.cat ∧ m'.hasRealloc = m.hasRealloc ∧ m'.nextId = m.nextId) :=
+      ∧ m'.ws = m.ws.set c (cfg.ops.dtor w).1 ∧ m'.cat = m.cat ∧ m'.hasRealloc = m.hasRealloc ∧ m'.nextId = m.nextId
+      ∧ (∀ id, (m'.buf (.blk id)).isSome → (m.buf (.blk id)).isSome)) :=
   destruct_small hfl L m c xs w h
+
+/-- the whole life of a `SmallVector` (construct; any safe history of the listed operations, continued after every exception;
+    destroy), seen from the elements: when the container is gone none of its elements remains alive. Every region it ever used —
+    its inline storage and every heap block allocated during its life (identifier `≥ m0.nextId`) — holds no object (the inline
+    storage is all raw, the blocks no longer exist), and every other region is exactly as it was before the container existed, so
+    no element survives anywhere else either; never a lifetime fault. -/
+theorem C02_lifecycle_no_element_left (hfl : cfg.flavour = .small) (L : SmallLaws cfg.ops cfg.n)
+    (hs : ∀ old n exact r, cfg.ops.safeNext old n exact = .ok r → (exact = true → n ≤ cfg.ops.kMax) → n ≤ r ∧ r ≤ cfg.ops.kMax)
+    (hck : ∀ c m, c ≤ m → cfg.ops.check c m = .ok []) (hce : ∀ c m, m < c → cfg.ops.check c m = .error .outOfRange)
+    (c : Nat) (ops : List (OpSpec α)) (hops : ∀ o ∈ ops, IsVecOp cfg o) (m0 : Mem α)
+    (hi : HInv m0) (hc : c < m0.ws.length) (hraw : m0.buf (.inl c) = some (raws cfg.n)) (h0 : m0.buf (.blk 0) = none)
+    (hsafe : Safe cfg ops []) (hcat : ∀ o ∈ ops, o.nonTC = true → m0.cat ≠ .tc) :
+    Post (do construct cfg c; runHist cfg c ops; destruct cfg c) m0 (fun res m' => res = .ok ()
+      ∧ (∀ r, (r = .inl c ∨ ∃ id, r = .blk id ∧ m0.nextId ≤ id) → ∀ b, m'.buf r = some b → ∀ s ∈ b, s = Slot.raw)
+      ∧ (∀ r, ¬ (r = .inl c ∨ ∃ id, r = .blk id ∧ m0.nextId ≤ id) → m'.buf r = m0.buf r)) := by
+  refine Post.mono (lifecycle_small hfl L hs hck hce c ops hops m0 hi hc hraw h0 hsafe hcat) ?_
+  rintro res m' ⟨hr, hblk, hoth, hinl⟩
+  refine ⟨hr, ?_, ?_⟩
+  · rintro r (rfl | ⟨id, rfl, hge⟩) b hb s hs
+    · rw [hinl] at hb; injection hb with hb; subst hb
+      exact List.eq_of_mem_replicate hs
+    · rw [hblk id hge] at hb; cases hb
+  · intro r hn
+    refine hoth r (fun id hid => ?_) (fun h => hn (Or.inl h))
+    rcases Nat.lt_or_ge id m0.nextId with h1 | h1
+    · exact h1
+    · exact absurd (Or.inr ⟨id, hid, h1⟩) hn
+
+/-- the same for `amc::vector` (no inline storage: the regions it ever used are the heap blocks allocated during its life) -/
+theorem C02_lifecycle_no_element_left_vector (hfl : cfg.flavour = .std) (L : StdLaws cfg.ops)
+    (hctor : cfg.ops.ctor cfg.n = ⟨0, 0, PtrV.null⟩)
+    (hdtor : ∀ t, (cfg.ops.dtor t).2 = if t.dyn ≠ PtrV.null then [Eff.dealloc t.dyn t.capa] else [])
+    (c : Nat) (ops : List (OpSpec α)) (hops : ∀ o ∈ ops, IsVecOp cfg o) (m0 : Mem α)
+    (hi : HInv m0) (hc : c < m0.ws.length) (h0 : m0.buf (.blk 0) = none)
+    (hsafe : Safe cfg ops []) (hcat : ∀ o ∈ ops, o.nonTC = true → m0.cat ≠ .tc) :
+    Post (do construct cfg c; runHist cfg c ops; destruct cfg c) m0 (fun res m' => res = .ok ()
+      ∧ (∀ id, m0.nextId ≤ id → ∀ b, m'.buf (.blk id) = some b → ∀ s ∈ b, s = Slot.raw)
+      ∧ (∀ r, r ≠ .inl c → (∀ id, r = .blk id → id < m0.nextId) → m'.buf r = m0.buf r)) := by
+  refine Post.mono (lifecycle_std hfl L hctor hdtor c ops hops m0 hi hc h0 hsafe hcat) ?_
+  rintro res m' ⟨hr, hblk, hoth⟩
+  refine ⟨hr, ?_, fun r hne hold => hoth r hold hne⟩
+  intro id hge b hb
+  rw [hblk id hge] at hb; cases hb
 
 end AmcVerif.Props.C02
